@@ -596,7 +596,7 @@ impl SinkWaitingResponse {
         for h in response.headers {
             match (h.name.to_ascii_lowercase().as_str(), self.request_version) {
                 ("transfer-encoding", http::Version::HTTP_2 | http::Version::HTTP_3) => {
-                    if h.value == "chunked".as_bytes() {
+                    if is_chunked(h.value) {
                         body_length = Some(BodyLength::Chunked);
                     }
                 }
@@ -648,6 +648,21 @@ impl SinkWaitingResponse {
 
         Ok((response, body_length))
     }
+}
+
+/// Whether the final transfer coding of a Transfer-Encoding value is `chunked` (RFC 9112 6.1;
+/// the names of transfer codings are case-insensitive)
+fn is_chunked(value: &[u8]) -> bool {
+    let last = value.rsplit(|b| *b == b',').next().unwrap_or_default();
+    let last = match last.iter().position(|b| !b.is_ascii_whitespace()) {
+        Some(i) => &last[i..],
+        None => last,
+    };
+    let end = last
+        .iter()
+        .rposition(|b| !b.is_ascii_whitespace())
+        .map_or(0, |i| i + 1);
+    last[..end].eq_ignore_ascii_case(b"chunked")
 }
 
 fn version_major_digit(v: http::Version) -> u32 {
@@ -739,7 +754,7 @@ fn serialize_request(request: &RequestHeaders) -> io::Result<(Bytes, BodyLength)
                             "Request has multiple Content-Length headers",
                         ))
                     }
-                    ("transfer-encoding", _) if value == "chunked" => {
+                    ("transfer-encoding", _) if is_chunked(value.as_bytes()) => {
                         body_length = Some(BodyLength::Chunked)
                     }
                     _ => (),
